@@ -350,6 +350,11 @@ def extract_nd(trace):
             dbls[i] = double_text(st.get("value", {}))
     li = [ints.get(i, 0) for i in range(max(ints) + 1)] if ints else []
     ld = [dbls.get(i, "0") for i in range(max(dbls) + 1)] if dbls else []
+    # the log arrays are zero-initialised and a missing entry replays as 0: trailing zeros carry no information
+    while li and li[-1] == 0:
+        li.pop()
+    while ld and ld[-1] in ("0", "0x0.0p+0"):
+        ld.pop()
     return li, ld
 
 
